@@ -169,10 +169,10 @@ type world struct {
 	// shadow: unpruned node with the same Store/RevertHead history (head-state oracle)
 	shadowDB *memory.Database
 	shadow   *blockchain.Blockchain
-	floor  *pruner.RetentionFloor
-	pcfg   prunerCfg
-	proc   *prunerProc
-	height int // -1 = empty; node's chain height as the harness drove it
+	floor    *pruner.RetentionFloor
+	pcfg     prunerCfg
+	proc     *prunerProc
+	height   int // -1 = empty; node's chain height as the harness drove it
 
 	drv   *lib.Driver
 	fdrv  *lib.Driver // second model instance, for crash forks
@@ -188,7 +188,7 @@ type world struct {
 	quiescent bool
 	isFork    bool
 	lastLow   uint64 // lowest durable floor seen at the previous observation (observation window)
-	broken    bool // the scenario left the property's domain or the harness lost sync: stop comparing
+	broken    bool   // the scenario left the property's domain or the harness lost sync: stop comparing
 }
 
 func (w *world) legacy() bool { return !w.ch.newState }
@@ -200,7 +200,9 @@ func b01(b bool) string {
 	return "0"
 }
 
-func (w *world) rec(op string, n uint64, arg string) { w.ops = append(w.ops, opRec{Op: op, N: n, Arg: arg}) }
+func (w *world) rec(op string, n uint64, arg string) {
+	w.ops = append(w.ops, opRec{Op: op, N: n, Arg: arg})
+}
 
 func (w *world) replay() any {
 	return map[string]any{"scenario": w.name, "spec": w.spec, "new_state": w.ch.newState,
